@@ -491,6 +491,22 @@ func p7Edits(s p7Seed) []p7Edit {
 		v[len(v)/2] ^= 0x80
 		return true
 	})
+	add("encryptedDigest longer than the key: a zero octet, non-zero octets, then the signature", func(t *p7Tree) bool {
+		t.si.Children[t.sigIdx].Val = append([]byte{0x00, 0x01, 0x02}, t.si.Children[t.sigIdx].Val...)
+		return true
+	})
+	add("encryptedDigest with one zero octet in front", func(t *p7Tree) bool {
+		t.si.Children[t.sigIdx].Val = append([]byte{0x00}, t.si.Children[t.sigIdx].Val...)
+		return true
+	})
+	add("encryptedDigest without its first octet", func(t *p7Tree) bool {
+		t.si.Children[t.sigIdx].Val = t.si.Children[t.sigIdx].Val[1:]
+		return true
+	})
+	add("encryptedDigest of 0xff octets, twice the key size", func(t *p7Tree) bool {
+		t.si.Children[t.sigIdx].Val = bytes.Repeat([]byte{0xff}, 2*len(t.si.Children[t.sigIdx].Val))
+		return true
+	})
 	add("truncate encryptedDigest", func(t *p7Tree) bool {
 		t.si.Children[t.sigIdx].Val = t.si.Children[t.sigIdx].Val[:16]
 		return true
